@@ -33,7 +33,7 @@ CHECKS = {
              'the edge vector by the same membership test; a goto set is merged only into a state that passed the weak-compatibility test, '
              'and the closed form of the state being processed is stored before its successors are merged; the new number garbage '
              'collection writes into an edge depends on the edge\'s target, never on a running count of the loop over the source states; '
-             'the look-ahead intersection test answers true as soon as any pair of storage words shares a bit.',
+             'the look-ahead intersection test answers true as soon as any pair of storage words shares a bit; the number garbage collection records for a kept state counts the states kept before it.',
         note='Necessary conditions only: equivalence with canonical LR(1) on every input and "never more states than canonical" '
              'need an independent construction and are NOT decided. Trusted: ' + TB,
         technique='path-table extraction (exhaustive over the 4 intersection atoms), dominance and reachability over MIR',
@@ -79,7 +79,7 @@ CHECKS = {
              'fields themselves, Hash subset); the two phases of the search and the sweep\'s cost filter; every candidate is '
              'test-parsed to the same end point; a forward move that consumed a lexeme is never discarded, and is recorded as a '
              'Shift repair exactly when it consumed one; a deletion is charged the cost of the token at the node\'s own position; '
-             'whether an insertion neighbour is built depends only on the candidate iterator, the end-of-input test and the trial parse.',
+             'whether an insertion neighbour is built depends only on the candidate iterator, the end-of-input test and the trial parse. The cost-bucket list is long enough for a neighbour of any permitted cost before it is indexed.',
         note='Minimality and completeness of the returned set need the exhaustive reference search and are NOT decided. Trusted: ' + TB,
         technique='path-table extraction of comparator/neighbour/eq tables and dominance ordering of pipeline stages in MIR',
         ref='§4 C06'),
@@ -173,7 +173,7 @@ CHECKS = {
              'the flags the lexer was built with and falls back to that same field of the defaults; every generated parser run '
              '(one per action kind) passes the builder\'s recovery setting to RTParserBuilder::recoverer; the generated reader '
              'selects, per SerialisationFormat variant, the integer encoding the builder wrote that variant with; every generated '
-             'Lexeme arm of the action wrappers answers Err for a faulty (inserted) lexeme and Ok otherwise. Every quoting function of a workspace enum writes, for each variant, that variant\'s own name into the generated path. The constructor generated code rebuilds the lexer with (from_rules) stores the rule list and the start states exactly as given.',
+             'Lexeme arm of the action wrappers answers Err for a faulty (inserted) lexeme and Ok otherwise. Every quoting function of a workspace enum writes, for each variant, that variant\'s own name into the generated path. The constructor generated code rebuilds the lexer with (from_rules) stores the rule list and the start states exactly as given. Every value the lexer generator obtains from a getter of Rule reaches the quotation through one definition chain (no content-dependent substitute).',
         note='NOT decided: that the generated and the run-time pipeline produce the same lexemes, values, errors and repairs for '
              'every input (translation validation per generated program; needs both to be run). $-substitution and wrapper '
              'argument order are not decided either (a slip there fails to compile or fails every compile-time test). Trusted: '
@@ -251,7 +251,7 @@ CHECKS = {
              'through a drop guard that owns the path and is disarmed only immediately before Ok exits; lexer rewrite rule; type '
              'parameters whose names the generated code spells out are part of the cache key; enum settings are rendered '
              'injectively (different variants differ, payloads are rendered); the token-map builder removes its output on every '
-             'failing exit as well; no failing exit of the lexer build precedes the nested parser build (1 known finding). Before the output path is claimed nothing can fail but the refusal to generate two files to one path (found the defect fixed in /repo e2492ae).',
+             'failing exit as well; no failing exit of the lexer build precedes the nested parser build (1 known finding). Before the output path is claimed nothing can fail but the refusal to generate two files to one path (found the defect fixed in /repo e2492ae). No path-valued setting is reduced to a component of itself on its way into the cache record.',
         note='Necessary conditions for "ends in the state a clean build would". Equality with a clean build across arbitrary '
              'file-system histories / clock granularity is NOT decided. 4 known findings (a lexer failure before the nested parser build leaves the parser file; settings that bypass the cache: the '
              'inspect_rt callback that validates test_files, and the unstable in-memory grammar sources). Trusted: std::fs semantics; ' + TB,
